@@ -206,6 +206,9 @@ func (fr *Frame) exec(ins ssa.Instruction, st *State) {
 		base := fr.lvalOf(ins.X)
 		if _, isL := fr.lvals[ins.X]; !isL && base.Ref != "" {
 			fr.nilCheck(base.Ref, fmt.Sprintf("%s.%s", ins.X.Name(), fieldName(base.T, ins.Field)), ins.Pos())
+			if vc.isPooledPtr(ins.X.Type()) {
+				fr.requireOwned(base.Ref, fmt.Sprintf("%s.%s", ins.X.Name(), fieldName(base.T, ins.Field)), ins.Pos(), st)
+			}
 		}
 		ft := base.T.Underlying().(*types.Struct).Field(ins.Field).Type()
 		lv := &LVal{Comp: base.Comp, Ref: base.Ref, Path: append(append([]pathElem{}, base.Path...), pathElem{field: ins.Field, structT: base.T}), T: ft}
@@ -950,6 +953,32 @@ func (fr *Frame) execMakeInterface(ins *ssa.MakeInterface, st *State) {
 	fr.bind(ins, fmt.Sprintf("(%s %s)", box, x.S))
 	h := fr.vals[ins].S
 	vc.assume(fmt.Sprintf("(and (> %s 0) (= (dyntype %s) %s) (= (%s %s) %s))", h, h, vc.tid(xt), unbox, h, x.S))
+	// stream identities behind bufio values
+	switch typeKey(xt) {
+	case "Pbufio_Reader":
+		vc.assume(fmt.Sprintf("(= %s %s)", vc.canon("rd", h), h))
+	case "Pbufio_Writer":
+		vc.assume(fmt.Sprintf("(= %s %s)", vc.canon("wr", h), h))
+	case "Pbufio_ReadWriter":
+		pt := xt.Underlying().(*types.Pointer)
+		stt := pt.Elem().Underlying().(*types.Struct)
+		comp := vc.memComp(pt.Elem())
+		cell := fmt.Sprintf("(select %s %s)", vc.get(st, comp), x.S)
+		ss := vc.sortOf(pt.Elem())
+		for i := 0; i < stt.NumFields(); i++ {
+			f := stt.Field(i)
+			box, _ := vc.boxFns(f.Type())
+			inner := fmt.Sprintf("(%s (%s_%s %s))", box, ss, f.Name(), cell)
+			if f.Name() == "Reader" {
+				vc.assume(fmt.Sprintf("(= %s %s)", vc.canon("rd", h), vc.canon("rd", inner)))
+				vc.assume(fmt.Sprintf("(= %s %s)", vc.canon("rd", inner), inner))
+			}
+			if f.Name() == "Writer" {
+				vc.assume(fmt.Sprintf("(= %s %s)", vc.canon("wr", h), vc.canon("wr", inner)))
+				vc.assume(fmt.Sprintf("(= %s %s)", vc.canon("wr", inner), inner))
+			}
+		}
+	}
 }
 
 func (fr *Frame) execTypeAssert(ins *ssa.TypeAssert, st *State) {
